@@ -293,7 +293,7 @@ func c19Check(c *core.Ctx, cases []c19Case) []core.Outcome {
 			}
 		}
 		if bad >= 0 {
-			o.Fail = &core.Failure{Kind: "impl-violation", Key: c19Key(cs.Runes, "notliteral"), Summary: "the parser does not read Escape(s) = " + esc + " as the literal s under options " + c19ParseOpts[bad].name, Expected: want, Got: pgo[i][bad]}
+			o.Fail = &core.Failure{Kind: "impl-violation", Key: "notliteral:" + c19ParseOpts[bad].name, Summary: "the parser does not read Escape(s) = " + esc + " as the literal s under options " + c19ParseOpts[bad].name, Expected: want, Got: pgo[i][bad]}
 			continue
 		}
 		// Escape(s) compiles and, anchored, matches exactly s
@@ -463,10 +463,22 @@ func init() {
 			{Runes: []rune(`\x41B\cC\x{1F600}\101\e`), Mode: "unescape"},
 			{Runes: []rune(`\u378x`), Mode: "unescape"},
 			{Runes: []rune(`abc\`), Mode: "unescape"},
+			// the parser's reading per option set (EscapeParse.parseWhy): the two seeded mutations
+			// (astral non-printable rune; BEL) and the option-dependent escapes
+			{Runes: []rune{'t', 0xe0001, 0x40000, '{', '2', '}'}, Mode: "escape", Opts: 4},
+			{Runes: []rune("ring\athe bell\x1b41"), Mode: "escape", Opts: 7},
+			{Runes: []rune(`\x{41}\x{f}\u{41}\u{f}`), Mode: "unescape"},
+			{Runes: []rune(`\a\e\_\q\k<1x\<1\<a b\'`), Mode: "unescape"},
+			{Runes: []rune("a b#c\n{2}\\ \\#{x"), Mode: "unescape"},
+			{Runes: []rune(`\101\81\400\777\08\cA\c1`), Mode: "unescape"},
+			{Runes: []rune(`\pL`), Mode: "unescape"},
+			{Runes: []rune(`a\d`), Mode: "unescape"},
+			{Runes: []rune(`\k<a>`), Mode: "unescape"},
+			{Runes: []rune(`\2147483648`), Mode: "unescape"},
 		}
 		core.RunLeg(c, core.Leg[c19Case]{
 			Name: "E", Kind: "correspondence+oracle",
-			Rule:   "random rune strings (40% from a list of metacharacters, whitespace, controls, non-printable BMP/astral and unassigned code points; rest uniform over ASCII / U+0000-07FF / BMP / astral), every 4th case an escaped-looking text for Unescape; non-trivial = non-empty; distinct by (mode,string). Each case: Go Escape/Unescape vs the Lean model, plus the model-free oracle Unescape(Escape(s))=s, Escape(s) compiles under the drawn options and \\A(?:Escape(s))\\z matches s and none of 3 single-rune edits of s",
+			Rule:   "random rune strings (40% from a list of metacharacters, whitespace, controls, non-printable BMP/astral and unassigned code points; rest uniform over ASCII / U+0000-07FF / BMP / astral), every 4th case an escaped-looking text (stray backslash forms: hex, octal, control, reference, class, anchor, property forms, braces, blanks, #); non-trivial = non-empty; distinct by (mode,string). Each case: (1) Go Escape/Unescape vs the Lean model; (2) the tree syntax.Parse builds for the pattern (Escape(s) as produced by Go, or the escaped-looking text) under 14 option sets (none, x, ms, xns, ecma, re2, rtl, ecma+m, re2+xs, unicode+rtl+x, ecma+u, ecma+x, ecma+u+x+rtl, re2+rtl) vs the Lean model of the literal fragment (parseWhy): model says literal t <=> the tree is a concatenation of One/Multi nodes spelling t; model says error => Parse fails; model says non-literal unit => no literal tree; constructs outside the fragment are not compared; (3) the model-free oracle Unescape(Escape(s))=s, the parser reads Escape(s) as the literal s under all 14 option sets, Escape(s) compiles under the drawn options and \\A(?:Escape(s))\\z matches s and none of 3 single-rune edits of s",
 			Corpus: corpus, N: c.N(6000, 300000), Gen: c19Gen, Check: c19Check,
 		})
 	})
